@@ -143,6 +143,19 @@ Example C07_nonvacuous_two_bodies :
   tree (parse_gold toks) = tree (parse_gold_with false (default_fuel toks) toks).
 Proof. vm_compute. repeat split; auto. Qed.
 
+(* non-vacuity of the hypotheses of C07_once / C07_linear: the context reached at the end of a
+   two-body file satisfies them and is not trivial (stale cache entries, a non-empty log) -- a third
+   method body would be entered from exactly such a context *)
+Example C07_once_nonvacuous :
+  let c := snd (parse_gold (fst (lex text_two_bodies))) in
+  cmemo c = true /\ CacheOK c /\ ccache c <> [] /\ cevals c <> [].
+Proof.
+  cbv zeta. unfold parse_gold.
+  destruct (C07_top_invariant (default_fuel (fst (lex text_two_bodies))) (fst (lex text_two_bodies))) as [Hm Hok].
+  - unfold default_fuel. lia.
+  - refine (conj Hm (conj Hok _)). split; vm_compute; discriminate.
+Qed.
+
 Print Assumptions C07_transparent.
 Print Assumptions C07_transparent_parse_gold.
 Print Assumptions C07_transparent_body.
@@ -157,3 +170,4 @@ Print Assumptions C07_method_call_success_stored.
 Print Assumptions C07_once_method_call_refuted.
 Print Assumptions C07_nonvacuous.
 Print Assumptions C07_nonvacuous_two_bodies.
+Print Assumptions C07_once_nonvacuous.
